@@ -1375,7 +1375,8 @@ std::vector<Op> randomHistory(Ctx& c, Rng& r)
             o.kind = 3;
             if (r.chance(1, 15))
             {
-                o.kind = 6;
+                // 6: copy and assign back; 7: continue on a copy while the original stays alive; 8: ... and the original is destroyed
+                o.kind = r.pick<int>({6, 7, 7, 8});
                 h.push_back(o);
                 continue;
             }
@@ -1473,7 +1474,9 @@ bool runAbortedEncode(Encoder& enc, const Op& o)
 
 void runHistory(Ctx& c, const std::vector<Op>& h, Rng& r)
 {
-    Encoder enc;
+    std::unique_ptr<Encoder> current = std::make_unique<Encoder>();
+    std::vector<std::unique_ptr<Encoder>> parked;  // originals that stay alive after the history moved on to a copy of them
+#define enc (*current)
     uint16_t dev = 0;
     uint8_t stream = 0;
     uint16_t last = 0;  // counter of the previously emitted frame (0 after a reset)
@@ -1527,6 +1530,19 @@ void runHistory(Ctx& c, const std::vector<Op>& h, Rng& r)
             enc = other;
             log += "continue-on-copy; ";
             c.count("encoder_copies");
+            prevOp = 6;
+            continue;
+        }
+        if (o.kind == 7 || o.kind == 8)
+        {
+            // the history continues on a copy; the original stays alive next to it (7) or is destroyed at once (8):
+            // a copy must not refer to anything inside the object it was copied from
+            auto next = std::make_unique<Encoder>(*current);
+            if (o.kind == 7)
+                parked.push_back(std::move(current));
+            current = std::move(next);
+            log += o.kind == 7 ? "continue-on-copy(original kept); " : "continue-on-copy(original destroyed); ";
+            c.count("encoder_copies_continued_next_to_or_after_the_original");
             prevOp = 6;
             continue;
         }
@@ -1649,6 +1665,7 @@ void runHistory(Ctx& c, const std::vector<Op>& h, Rng& r)
     c.count("history_encode_calls", encodeCalls);
     c.count("histories");
     c.sample("history: " + log + " -> " + std::to_string(framesTotal) + " frames", 3);
+#undef enc
 }
 
 long countCases(Ctx& c)
